@@ -64,6 +64,7 @@ Contract(
     ensures=[
         ("image", lambda c: implies(c.returns, c.ret == jcl(eff_classes(c.a.classes), c.a.obj)),
          ("C15", "C07")),
+        ("raises_exceptions_only", lambda c: implies(c.raised, c.raises(Exception)), ("C08", "C02")),
     ],
     modifies=[Ghost("imports"), Ghost("constructs"), Ghost("xlate_log"), Param("obj")],
     props=("C15", "C07", "C08"),
